@@ -118,7 +118,9 @@ func helperWitness(kind string, c lockCfg, lk *lockKeys, p cashu.Proof) (cashu.P
 }
 
 func htlcPreimages(lk *lockKeys) map[string]string {
-	return map[string]string{"right": lk.Preimage, "wrong": strings.Repeat("ab", 32), "nonhex": "zz" + lk.Preimage[2:], "empty": "", "odd": lk.Preimage[:63], "upper": strings.ToUpper(lk.Preimage)}
+	return map[string]string{"right": lk.Preimage, "wrong": strings.Repeat("ab", 32), "nonhex": "zz" + lk.Preimage[2:], "empty": "", "odd": lk.Preimage[:63], "upper": strings.ToUpper(lk.Preimage),
+		// the right preimage followed by something that is not hex: the whole string is not a preimage
+		"right+zz": lk.Preimage + "zz", "right+odd-digit": lk.Preimage + "0", "right+space": lk.Preimage + " ", "right+0x00": lk.Preimage + "0x00"}
 }
 
 func runLocks(r *core.Run, kind string) {
@@ -282,7 +284,7 @@ func lockMintLevel(r *core.Run, kind, id string) {
 				nplainBefore, nplainAfter = 0, 0
 			}
 			twoLocked := rng.Intn(5) == 0
-			outMode := []string{"unsigned", "helper", "threshold", "partly", "wrong-key", "first-only", "later-preimage-bad"}[rng.Intn(7)]
+			outMode := []string{"unsigned", "helper", "threshold", "partly", "wrong-key", "first-only", "later-preimage-bad", "refund-key"}[rng.Intn(8)]
 			if outMode == "later-preimage-bad" && kind != "HTLC" {
 				outMode = "first-only"
 			}
@@ -320,7 +322,21 @@ func lockMintLevel(r *core.Run, kind, id string) {
 				nplainBefore, nplainAfter, pos = 0, 0, "alone"
 				twoLocked = rng.Intn(4) == 0
 				path = "swap"
-				outMode = []string{"unsigned", "helper", "threshold", "partly", "wrong-key", "first-only", "later-preimage-bad"}[(i/workers/3)%7]
+				outMode = []string{"unsigned", "helper", "threshold", "partly", "wrong-key", "first-only", "later-preimage-bad", "refund-key"}[(i/workers/3)%8]
+				if outMode == "refund-key" {
+					// the refund keys of an unexpired lock may not sign the outputs: prefer such a configuration
+					for tries := 0; tries < 50 && (len(c.Refund) == 0 || c.Locktime == 0); tries++ {
+						c2 := cfgs[rng.Intn(len(cfgs))]
+						avail := len(c2.Pubkeys)
+						if kind == "P2PK" {
+							avail++
+						}
+						if !c2.expired() && avail >= maxInt(c2.NSigs, 1) && !(kind == "P2PK" && c2.NSigs > 0 && len(c2.Pubkeys) == 0) {
+							c2.Nonce, c2.Sigflag, c2.TagOrder = c.Nonce, "SIG_ALL", c.TagOrder
+							c = c2
+						}
+					}
+				}
 				if outMode == "later-preimage-bad" && kind != "HTLC" {
 					outMode = "first-only"
 				}
@@ -529,6 +545,19 @@ func lockMintLevel(r *core.Run, kind, id string) {
 			case "wrong-key":
 				for k := range bms {
 					bms[k] = signOut(bms[k], []*btcec.PrivateKey{lk.F})
+				}
+			case "refund-key":
+				// enough signatures, right preimage, but by the refund keys (or a foreign key when there is none)
+				var ks []*btcec.PrivateKey
+				for k := 0; k < need; k++ {
+					if len(oc.Refund) > 0 {
+						ks = append(ks, lk.Refund[k%len(oc.Refund)])
+					} else {
+						ks = append(ks, lk.F)
+					}
+				}
+				for k := range bms {
+					bms[k] = signOut(bms[k], ks)
 				}
 			case "first-only":
 				ks := pool
